@@ -53,6 +53,16 @@ def norm_edge(e):
     return e
 
 
+def dedup(edges):
+    seen, res = set(), []
+    for e in edges:
+        k = json.dumps(e, sort_keys=True)
+        if k not in seen:
+            seen.add(k)
+            res.append(e)
+    return res
+
+
 def actions_taken(out):
     """Action name -> generated count, from TLC's -coverage output."""
     acts = collections.Counter()
@@ -182,7 +192,7 @@ UNIVERSES = {
 
 def refresh_edges(ctx, cfg, coverage):
     r = ctx.tlc("FilterRefresh", cfg, workers=6, timeout=800, coverage=coverage)
-    edges = [norm_edge(e) for e in r["vectors"]]
+    edges = [norm_edge(e) for e in dedup(r["vectors"])]
     if coverage:
         acts = actions_taken(r["out"])
         for a in ("Boot", "Refresh", "Restart"):
@@ -480,39 +490,52 @@ def validate_refresh_trace(ctx, rows):
 
 
 def reproduce_trace_lines(ctx, rows, verdict):
-    """Re-record the traces that contain rejected lines and validate them again."""
-    res = {"known": 0, "flaky": 0}
-    lines = sorted(set(verdict["bad"]) | set(verdict["asis"]))
-    if not lines:
-        return res
+    """Re-record the traces that contain rejected lines (all of them for `bad`,
+    a sample for lines explained by the open known finding) and validate them
+    again: a line counts only if it is rejected the same way a second time."""
+    res = {"known": 0, "known_not_rerun": 0, "flaky": 0}
+    known_open = {k for (p, k), v in vlib.known_findings().items() if p == ctx.prop and v.get("status") == "open"}
     by_trace = collections.defaultdict(list)
-    for n in lines:
-        by_trace[rows[n - 1]["trace"]].append(n)
-    for tr in sorted(by_trace)[:40]:
-        tout = ctx.path("c15_refresh_trace_iso_%d.ndjson" % tr)
-        rc, out = go(ctx, "^TestZZVerifC15RefreshTrace$", {"VERIF_OUT": tout, "VERIF_ONLY": str(tr)})
-        rows2 = vlib.read_ndjson(tout)
-        if rc != 0 or not rows2:
-            raise vlib.Inconclusive("C15 refresh trace driver (isolated) did not complete:\n" + out[-2000:])
-        v2 = validate_refresh_trace(ctx, rows2)
-        again = {}
-        for kind in ("bad", "asis"):
-            for n in v2[kind]:
-                again[rows2[n - 1]["i"]] = kind
-        for n in by_trace[tr]:
+    for kind in ("bad", "asis"):
+        for n in verdict[kind]:
+            by_trace[rows[n - 1]["trace"]].append((n, kind))
+    want = sorted(tr for tr, ls in by_trace.items() if any(k == "bad" for _, k in ls))
+    if len(want) > 40:
+        raise vlib.Inconclusive("%d traces with rejected lines" % len(want))
+    asis_only = sorted(tr for tr in by_trace if tr not in want)
+    if KEY_NETERR in known_open:
+        for tr in asis_only[3:]:
+            res["known"] += len(by_trace[tr])
+            res["known_not_rerun"] += len(by_trace[tr])
+        asis_only = asis_only[:3]
+    want += asis_only
+    if not want:
+        return res
+    tout = ctx.path("c15_refresh_trace_iso.ndjson")
+    rc, out = go(ctx, "^TestZZVerifC15RefreshTrace$", {"VERIF_OUT": tout, "VERIF_ONLY": ",".join(map(str, want))})
+    rows2 = vlib.read_ndjson(tout)
+    if rc != 0 or not rows2:
+        raise vlib.Inconclusive("C15 refresh trace driver (isolated) did not complete:\n" + out[-2000:])
+    v2 = validate_refresh_trace(ctx, rows2)
+    again = {}
+    for kind in ("bad", "asis"):
+        for n in v2[kind]:
+            again[(rows2[n - 1]["trace"], rows2[n - 1]["i"])] = kind
+    for tr in want:
+        for n, kind in by_trace[tr]:
             row = rows[n - 1]
-            kind = "asis" if n in verdict["asis"] else "bad"
-            if again.get(row["i"]) != kind:
+            if again.get((tr, row["i"])) != kind:
                 res["flaky"] += 1
                 continue
-            hist = [r for r in rows2 if r.get("ev") == "boot" or r.get("i", 0) <= row["i"]]
+            hist = [r for r in rows2 if r["trace"] == tr and (r.get("ev") == "boot" or r.get("i", 0) <= row["i"])]
             rec = {"kind": "trace", "trace": tr, "step": row["i"], "verdict": kind,
                    "history": [{k: r[k] for k in ("ev", "cfg", "act", "script", "obs", "rew") if k in r} for r in hist]}
             key = KEY_NETERR if kind == "asis" else None
-            what = "trace %d step %d (%s): observed state after %s is %s by TraceFilterRefresh" % (
+            what = "trace %d step %d: the state observed after %s with %s is %s" % (
                 tr, row["i"], json.dumps(row["act"], sort_keys=True),
                 json.dumps({l: b["k"] for l, b in row["script"].items()}, sort_keys=True),
-                "explained only by the early return before the engine rebuild" if kind == "asis" else "rejected")
+                "explained only by the early return before the engine rebuild" if kind == "asis"
+                else "rejected by TraceFilterRefresh; observed " + json.dumps(row["obs"], sort_keys=True)[:1500])
             if ctx.disagreement(key, rec, what) == "known":
                 res["known"] += 1
     return res
@@ -544,7 +567,7 @@ def run(ctx):
     if '"FailureIsNoOp"' not in neg["out"] or "Assert evaluated to FALSE" not in neg["out"]:
         raise vlib.Inconclusive("FilterRefresh.asis.cfg no longer violates FailureIsNoOp: the as-is model lost its meaning")
     ctx.tlc_runs[-1]["violated"] = "FailureIsNoOp (expected: negative configuration)"
-    literal = literal_history(ctx, [norm_edge(e) for e in neg["vectors"]])
+    literal = literal_history(ctx, [norm_edge(e) for e in dedup(neg["vectors"])])
 
     # ---- refresh half, direction A
     edges = refresh_edges(ctx, "FilterRefresh.mc.cfg", coverage=True)
@@ -596,7 +619,7 @@ def run(ctx):
         "refresh_tours": res2["tours"] + res3["tours"], "refresh_steps_planned": res2["planned"] + res3["planned"],
         "refresh_bad_steps": res2["bad"] + res3["bad"], "refresh_flaky": res2["flaky"] + res3["flaky"] + resb["flaky"],
         "refresh_known_finding_steps": res2["known"] + res3["known"] + resb["known"],
-        "refresh_known_finding_steps_not_rerun": res2["known_not_rerun"] + res3["known_not_rerun"],
+        "refresh_known_finding_steps_not_rerun": res2["known_not_rerun"] + res3["known_not_rerun"] + resb["known_not_rerun"],
         "truncated_by_known_finding": res2["truncated"] + res3["truncated"],
         "refresh_trace_steps": trace_steps, "refresh_trace_rejected": len(verdict["bad"]),
         "refresh_trace_asis": len(verdict["asis"]),
